@@ -303,6 +303,6 @@ func main() {
 	r.Set("traces_validated_against_impl", rq.Transitions+rs.Transitions)
 	r.Set("max_depth", max(rq.MaxDepth, rs.MaxDepth))
 	r.Set("size_bound", n)
-	r.Set("rule", "explicit-state BFS to fixpoint from the zero value, values {1,2}, size bound as given; the fingerprint includes the stack's hidden capacity region; after every transition the container is drained and compared element by element with a slice model, then reused; plus fill/drain saw-tooth families up to thousands of elements (capacity-dependent paths)")
+	r.Set("rule", "explicit-state BFS to fixpoint from the zero value, values {1,2}, size bound as given; the fingerprint includes the stack's hidden capacity region; after every transition the container is drained and compared element by element with a slice model, then reused; plus fill/drain saw-tooth families up to thousands of elements (capacity-dependent paths) PLUS deterministic families beyond the exhaustive bound (large sizes, every single/double removal from trees built in 7 orders, long one-instance churn histories): see the *_family_* counters")
 	r.Finish()
 }
